@@ -147,6 +147,10 @@ class Printer:
     def ctype(self, t):
         d = t.get('desugaredQualType')
         s = t.get('qualType')
+        # a typedef that desugars to a builtin scalar (Eigen's RealScalar, Index, ...) is that scalar, unless the spec maps
+        # the spelled name explicitly
+        if d is not None and strip_cv(d) in SCALARS and s is not None and not any(re.search(rx, strip_cv(s)) for rx, _ in self.types):
+            return SCALARS[strip_cv(d)]
         # try the spelled type first (aliases like nano::vector_t are stable names), then the desugared one
         for q in (s, d):
             if q is None:
